@@ -3,6 +3,8 @@ package main
 // C08 — configured limits are in force; exhausting them yields the matching verdict.
 
 import (
+	"sort"
+	"go/types"
 	"fmt"
 	"go/token"
 	"strings"
@@ -21,105 +23,112 @@ func checkC08(c *Check) {
 	if prep == nil {
 		c.Undecided("1/rlimit-table", "pkg/rlimit.PrepareRLimit", "-", "function not found")
 	} else {
-		want := map[string]struct {
-			res  string
-			cur  string
-			max  string
-			bool bool
-		}{
-			"CPU": {"RLIMIT_CPU", "CPU", "clamp", false}, "Data": {"RLIMIT_DATA", "Data", "Data", false}, "FileSize": {"RLIMIT_FSIZE", "FileSize", "FileSize", false},
-			"Stack": {"RLIMIT_STACK", "Stack", "Stack", false}, "AddressSpace": {"RLIMIT_AS", "AddressSpace", "AddressSpace", false},
-			"OpenFile": {"RLIMIT_NOFILE", "OpenFile", "OpenFile", false}, "DisableCore": {"RLIMIT_CORE", "0", "0", true},
+		// The record → limit-list conversion is evaluated on a finite set of scenarios by constant propagation (each
+		// field alone, the CPU soft/hard combinations, nothing, everything): the list of entries appended on every
+		// path is read from the abstract memory. Independent of how the function is written (one block per field, or
+		// a table and a loop).
+		type entry struct{ res, cur, max int64 }
+		type scenario struct {
+			label string
+			set   map[string]int64 // field -> value (bool fields: 1)
+			want  []entry
 		}
-		recv := prep.Params[0].Name()
-		cd := controlDeps(prep)
-		seen := map[string]bool{}
-		for _, b := range prep.Blocks {
-			for _, in := range b.Instrs {
-				st, ok := in.(*ssa.Store)
+		R := func(n string) int64 { return p.Sys(n) }
+		scs := []scenario{
+			{"nothing set", map[string]int64{}, nil},
+			{"CPU=10, CPUHard unset", map[string]int64{"CPU": 10}, []entry{{R("RLIMIT_CPU"), 10, 10}}},
+			{"CPU=10, CPUHard=20", map[string]int64{"CPU": 10, "CPUHard": 20}, []entry{{R("RLIMIT_CPU"), 10, 20}}},
+			{"CPU=10, CPUHard=5 (below soft)", map[string]int64{"CPU": 10, "CPUHard": 5}, []entry{{R("RLIMIT_CPU"), 10, 10}}},
+			{"CPUHard=20 alone", map[string]int64{"CPUHard": 20}, nil},
+			{"Data=1001", map[string]int64{"Data": 1001}, []entry{{R("RLIMIT_DATA"), 1001, 1001}}},
+			{"FileSize=1002", map[string]int64{"FileSize": 1002}, []entry{{R("RLIMIT_FSIZE"), 1002, 1002}}},
+			{"Stack=1003", map[string]int64{"Stack": 1003}, []entry{{R("RLIMIT_STACK"), 1003, 1003}}},
+			{"AddressSpace=1004", map[string]int64{"AddressSpace": 1004}, []entry{{R("RLIMIT_AS"), 1004, 1004}}},
+			{"OpenFile=1005", map[string]int64{"OpenFile": 1005}, []entry{{R("RLIMIT_NOFILE"), 1005, 1005}}},
+			{"DisableCore", map[string]int64{"DisableCore": 1}, []entry{{R("RLIMIT_CORE"), 0, 0}}},
+			{"everything set", map[string]int64{"CPU": 10, "CPUHard": 20, "Data": 1001, "FileSize": 1002, "Stack": 1003, "AddressSpace": 1004, "OpenFile": 1005, "DisableCore": 1},
+				[]entry{{R("RLIMIT_CPU"), 10, 20}, {R("RLIMIT_DATA"), 1001, 1001}, {R("RLIMIT_FSIZE"), 1002, 1002}, {R("RLIMIT_STACK"), 1003, 1003}, {R("RLIMIT_AS"), 1004, 1004}, {R("RLIMIT_NOFILE"), 1005, 1005}, {R("RLIMIT_CORE"), 0, 0}}},
+		}
+		recvParam := prep.Params[0]
+		for _, sc2 := range scs {
+			sc2 := sc2
+			var results []string
+			w := &walker{fn: prep, MaxVisits: 12}
+			w.Seed = func(w *walker, st *wstate, v ssa.Value) *absVal {
+				if u, ok := v.(*ssa.UnOp); ok && u.Op == token.MUL {
+					if fa, ok := u.X.(*ssa.FieldAddr); ok && fa.X == ssa.Value(recvParam) {
+						f := fieldName(fa.X.Type(), fa.Field)
+						val := sc2.set[f]
+						if b, isB := u.Type().Underlying().(*types.Basic); isB && b.Info()&types.IsBoolean != 0 {
+							return avBool(val != 0)
+						}
+						return avInt(val)
+					}
+				}
+				return nil
+			}
+			w.OnInstr = func(w *walker, st *wstate, in ssa.Instruction) {
+				call, ok := in.(*ssa.Call)
 				if !ok {
-					continue
+					return
 				}
-				fa, ok := st.Addr.(*ssa.FieldAddr)
-				if !ok || !strings.HasSuffix(derefType(fa.X.Type()).String(), "rlimit.RLimit") || fieldName(fa.X.Type(), fa.Field) != "Res" {
-					continue
+				bi, ok := call.Call.Value.(*ssa.Builtin)
+				if !ok || bi.Name() != "append" || len(call.Call.Args) != 2 || !strings.HasSuffix(call.Type().String(), "rlimit.RLimit") {
+					return
 				}
-				resV, okc := constInt(st.Val)
-				// the guard: exactly one atom on a receiver field
-				g := cd.guardOf(b)
-				atoms := Support(g)
-				field := ""
-				if len(atoms) == 1 {
-					a := atoms[0]
-					a = strings.TrimPrefix(a, recv+".")
-					field = strings.TrimSuffix(a, " == 0")
+				sl, ok := call.Call.Args[1].(*ssa.Slice)
+				if !ok {
+					st.noteStr("entries", st.notedStr("entries")+"?;")
+					return
 				}
-				w, known := want[field]
-				key := "pkg/rlimit.PrepareRLimit:" + field
-				pos := p.Pos(st.Pos())
-				if !known || len(atoms) != 1 {
-					c.Fail("1/rlimit-table", "pkg/rlimit.PrepareRLimit:entry@"+describe(st.Val), pos, "a limit entry is produced under guard "+g.String()+", not under exactly one field of the record being set")
-					continue
+				arr := w.eval(st, sl.X)
+				if arr.k != avPtr {
+					st.noteStr("entries", st.notedStr("entries")+"?;")
+					return
 				}
-				seen[field] = true
-				// polarity: entry produced when field != 0 (or bool true)
-				polOK, _, _ := Valid(fIff(g, func() *Form {
-					if w.bool {
-						return fLit(atoms[0])
+				el := w.load(st, arr.key+"[0]", call.Type().(*types.Slice).Elem())
+				res, cur, max := "?", "?", "?"
+				if el.k == avStruct {
+					if f := el.fields["Res"]; f != nil {
+						res = f.String()
 					}
-					return fNot(fLit(atoms[0]))
-				}()))
-				c.Cond(polOK, "1/rlimit-table", key+":guard", pos, "entry produced iff "+field+" is set", "entry for "+field+" is produced under the wrong polarity: "+g.String())
-				c.Cond(okc && resV == p.Sys(w.res), "1/rlimit-table", key+":resource", pos, field+" → "+w.res, fmt.Sprintf("%s is applied to resource %d, want %s (%d)", field, resV, w.res, p.Sys(w.res)))
-				// the Rlim store in the same block
-				var cur, max ssa.Value
-				for _, in2 := range b.Instrs {
-					if st2, ok := in2.(*ssa.Store); ok {
-						if fa2, ok := st2.Addr.(*ssa.FieldAddr); ok && fa2.X == fa.X && fieldName(fa2.X.Type(), fa2.Field) == "Rlim" {
-							if call, ok := st2.Val.(*ssa.Call); ok && len(call.Call.Args) == 2 {
-								cur, max = call.Call.Args[0], call.Call.Args[1]
-								if _, callee := calleeOf(call); callee != nil {
-									checkGetRlimit(c, callee)
-								}
-							}
+					if rl := el.fields["Rlim"]; rl != nil && rl.k == avStruct {
+						if f := rl.fields["Cur"]; f != nil {
+							cur = f.String()
+						}
+						if f := rl.fields["Max"]; f != nil {
+							max = f.String()
 						}
 					}
 				}
-				if cur == nil {
-					c.Fail("1/rlimit-table", key+":values", pos, "cannot find the soft/hard values of this entry")
-					continue
-				}
-				curOK := describe(cur) == recv+"."+w.cur || (w.cur == "0" && describe(cur) == "0")
-				maxOK := false
-				switch w.max {
-				case "clamp":
-					if ph, ok := max.(*ssa.Phi); ok && len(ph.Edges) == 2 {
-						ds := map[string]bool{describe(ph.Edges[0]): true, describe(ph.Edges[1]): true}
-						if ds[recv+".CPUHard"] && ds[recv+".CPU"] {
-							// the edge carrying CPU is taken when CPUHard < CPU
-							for i, e := range ph.Edges {
-								if describe(e) == recv+".CPU" {
-									pg := cd.guardOf(ph.Block().Preds[i])
-									s := pg.String()
-									maxOK = strings.Contains(s, recv+".CPUHard < "+recv+".CPU") && !strings.Contains(s, "¬"+recv+".CPUHard < "+recv+".CPU")
-								}
-							}
-						}
-					}
-				case "0":
-					maxOK = describe(max) == "0"
-				default:
-					maxOK = describe(max) == recv+"."+w.max
-				}
-				c.Cond(curOK && maxOK, "1/rlimit-table", key+":values", pos, "soft/hard = ("+describe(cur)+", "+describe(max)+")", "soft/hard values of "+field+" are ("+describe(cur)+", "+describe(max)+")")
+				st.noteStr("entries", st.notedStr("entries")+res+"/"+cur+"/"+max+";")
 			}
-		}
-		for f := range want {
-			if !seen[f] {
-				c.Fail("1/rlimit-table", "pkg/rlimit.PrepareRLimit:"+f, p.Pos(prep.Pos()), "no limit entry is produced for field "+f)
+			w.OnReturn = func(w *walker, st *wstate, ret *ssa.Return, rs []*absVal) {
+				results = append(results, st.notedStr("entries"))
 			}
+			w.Run()
+			var wantL []string
+			for _, e := range sc2.want {
+				wantL = append(wantL, fmt.Sprintf("%d/%d/%d", e.res, e.cur, e.max))
+			}
+			sort.Strings(wantL)
+			okSc := len(results) > 0 && !w.Truncated
+			got := ""
+			for _, r := range results {
+				parts := strings.Split(strings.TrimSuffix(r, ";"), ";")
+				if r == "" {
+					parts = nil
+				}
+				sort.Strings(parts)
+				got = strings.Join(parts, " ")
+				if strings.Join(parts, " ") != strings.Join(wantL, " ") {
+					okSc = false
+				}
+			}
+			c.Cond(okSc, "1/rlimit-table", "pkg/rlimit.PrepareRLimit:"+sc2.label, p.Pos(prep.Pos()), "→ entries (resource/soft/hard): "+strings.Join(wantL, " "),
+				fmt.Sprintf("with %s the limit list is [%s], want [%s]", sc2.label, got, strings.Join(wantL, " ")))
 		}
-		c.Expect("1/rlimit-table", 21)
+		c.Expect("1/rlimit-table", 12)
 	}
 
 	// ---------- 2: child loop ----------
